@@ -453,7 +453,7 @@ class SymReal:
         if core.cur().branch(b == 0, refine=True):
             raise ZeroDivisionError("float division by zero")
         if SymReal.exact_mul:
-            return SymReal(a / b)
+            return SymReal(a * INV(b))          # exact product, opaque inverse (inv(b)*b == 1 added on refinement)
         return SymReal(_rmul(z3.simplify(a), INV(b)))
 
     def __truediv__(self, o):
